@@ -14,7 +14,8 @@ Hand transcription of
 What is a parameter (a field of `World`), not modelled code:
 * `fetch`  — the fetcher (`CSSParser(fetcher=…)`), a function of the URL;
 * `dec`    — CPython's codecs: `codecs.getdecoder(name)(bytes)`, with the two ways it can fail;
-* `known`  — `codecs.lookup(name)` succeeds;
+* `known`  — the codec check of `CSSCharsetRule._setEncoding` passes (`csscharsetrule.py:156-163`: a text encoding
+  of the runtime that works with the `escapecss` error handler, not the css codec itself);
 * `view`   — what the sheet parser makes of a decoded text, reduced to the items that matter here
   (leading `@charset`, white space, comments, `@import` hrefs, other rules). The theorems hold for every `view`;
   the driver instantiates it with the small scanner `scanItems` below and the correspondence checks that
